@@ -22,5 +22,24 @@ theorem C06_tie_get_at_instant {V : Type} (l : List (Entry V)) (d : Int) :
       · simp [pget, List.find?, h]
       · simp [pget, List.find?, h]; exact ih)
 
+/-- **tie**: the children a parameter group exposes at a date — `childrenAt`, the function the group clause of
+    C06 is proved about — are what the current source of `ParameterNodeAtInstant.__init__` keeps: every child
+    of the node, in dict order, read with `_get_at_instant`, dropped exactly when that is `None` -/
+theorem C06_tie_node_children {V : Type} (cs : List (String × PNode V)) (d : Int) :
+    childrenAt cs d = Generated.Param.node_at_instant_children PNode.atInstant cs d := by
+  induction cs with
+  | nil => simp [childrenAt, Generated.Param.node_at_instant_children]
+  | cons kc r ih =>
+    obtain ⟨k, c⟩ := kc
+    unfold Generated.Param.node_at_instant_children at ih ⊢
+    rw [childrenAt, List.filterMap_cons]
+    cases h : c.atInstant d with
+    | none => simp [ih]
+    | some s => simp [ih]
+
+/-- a group with one member defined at the date and one not yet defined exposes the first only -/
+example : Generated.Param.node_at_instant_children (fun (l : List (Entry Nat)) d => pget l d)
+    [("a", [⟨10, some 3⟩]), ("b", [⟨30, some 4⟩])] 15 = [("a", 3)] := by decide
+
 example : Generated.Param.parameter_get_at_instant [⟨20, some 5⟩, ⟨10, some 3⟩] 15 = some 3 := by decide
 end OFCore.Param
